@@ -85,6 +85,22 @@ Theorem counts_residues f r :
   /\ (fc_block_count (last (write_file LT f) []) * 10)%Z = Z.of_nat (length (write_file LT f) + (10 - r) mod 10).
 Proof. exact (block_count_residues LT all_layouts_ok count_cols_checked f r). Qed.
 
+(* Create as a function on the tree *)
+Theorem counts_tabulated f : adv_only f = true -> tabulatedb (tabulate f) = true.
+Proof. exact (tabulate_tabulated f). Qed.
+
+Theorem counts_tabulate f g :
+  create_counts_of f = Some g ->
+  shape_ok LT f = true -> adv_no_iat f = true -> all_file (rec_fitsb LT) g = true -> count_boundsb g = true ->
+  let ls := write_file_padded LT g in
+  let fc := last (write_file LT g) [] in
+  fc_batch_count fc = Z.of_nat (batch_header_lines ls)
+  /\ fc_entry_count fc = Z.of_nat (entry_addenda_lines ls)
+  /\ (fc_block_count fc * 10)%Z = Z.of_nat (length ls)
+  /\ length (batch_segments ls) = length (all_batches f)
+  /\ Forall (fun s => bc_entry_count (snd s) = Z.of_nat (entry_addenda_lines (fst s))) (batch_segments ls).
+Proof. exact (create_counts_tabulate LT all_layouts_ok count_cols_checked f g). Qed.
+
 (* the file control line is the last record before the filler *)
 Theorem counts_file_control_line f : last (write_file LT f) [] = render_rec LT (fl_ctl f).
 Proof. exact (write_file_last LT f). Qed.
@@ -130,6 +146,21 @@ Lemma generated_files_hyps :
   forallb hypsb [ex_std; ex_ret; ex_iat; ex_adv; cx_r0; cx_r0_adv; cx_r0_iat; cx_r1; cx_r9; cx_r9_adv; cx_r9_iat] = true.
 Proof. vm_compute. reflexivity. Qed.
 
+(* the model of Create leaves the count fields of files tabulated by the real Create as they are *)
+Definition count_fields (f : fileR) : list Z * (Z * Z * Z) :=
+  (map (fun b => geti (r_val (bt_ctl b)) "EntryAddendaCount") (all_batches f),
+   (geti (r_val (fl_ctl f)) "BatchCount", geti (r_val (fl_ctl f)) "BlockCount", geti (r_val (fl_ctl f)) "EntryAddendaCount")).
+Lemma generated_files_fixed :
+  forallb (fun f => match create_counts_of f with
+                    | Some g => if list_eq_dec Z.eq_dec (fst (count_fields g)) (fst (count_fields f)) then
+                                  let '(a, b, c) := snd (count_fields g) in let '(a', b', c') := snd (count_fields f) in
+                                  (a =? a')%Z && (b =? b')%Z && (c =? c')%Z
+                                else false
+                    | None => false
+                    end)
+          [ex_std; ex_ret; ex_iat; ex_adv; cx_r0; cx_r0_adv; cx_r0_iat; cx_r1; cx_r9; cx_r9_adv; cx_r9_iat] = true.
+Proof. vm_compute. reflexivity. Qed.
+
 (* (records before the filler, residue, filler lines, declared block count, '5' lines, '6'+'7' lines) *)
 Definition residue_row (f : fileR) : nat * nat * nat * Z * nat * nat :=
   let n := length (write_file LT f) in
@@ -161,23 +192,13 @@ Proof.
 Qed.
 
 (* every residue 0..9: one batch of the generated file cx_r0 with k copies of its
-   first entry (which carries one addenda record), controls re-tabulated by the model *)
-Definition set_int (x : recordR) (f : string) (z : Z) : recordR := mkRec (r_kind x) ((f, VI z) :: r_val x).
-Definition retab_batch (b : batchR) : batchR :=
-  mkBat (bt_hdr b) (bt_entries b) (set_int (bt_ctl b) "EntryAddendaCount" (built_count b)).
-Definition retab (f : fileR) : fileR :=
-  let g := mkFil (fl_hdr f) (map retab_batch (fl_batches f)) (map retab_batch (fl_iat f)) (fl_ctl f) in
-  let c := created_control g in
-  mkFil (fl_hdr g) (fl_batches g) (fl_iat g)
-        (set_int (set_int (set_int (fl_ctl g) "BatchCount" (Offsets.fc_batches c)) "BlockCount" (Offsets.fc_blocks c))
-                 "EntryAddendaCount" (Offsets.fc_count c)).
-
+   first entry, controls tabulated by the model of Create ([tabulate]) *)
 Definition plain_entry (e : entryR) : entryR := mkEnt (en_rec e) [].
 (* k entries without addenda and one with its (two) addenda: 4 + k + 3 records *)
 Definition sized (k : nat) : fileR :=
   match fl_batches cx_r0 with
   | b :: _ => match bt_entries b with
-              | e :: _ => retab (mkFil (fl_hdr cx_r0) [mkBat (bt_hdr b) (repeat (plain_entry e) k ++ [e]) (bt_ctl b)] [] (fl_ctl cx_r0))
+              | e :: _ => tabulate (mkFil (fl_hdr cx_r0) [mkBat (bt_hdr b) (repeat (plain_entry e) k ++ [e]) (bt_ctl b)] [] (fl_ctl cx_r0))
               | [] => cx_r0
               end
   | [] => cx_r0
